@@ -98,6 +98,17 @@ mut("started-close-uses-new-state-and-old-sig", CUS, "            self.old_close
 mut("apply-payment-keeps-nonce", STA, "            nonce: Nonce::new(rng),\n            revocation_pair: RevocationPair::new(rng),\n            customer_balance: self.customer_balance.apply(amt)?,", "            nonce: self.nonce,\n            revocation_pair: RevocationPair::new(rng),\n            customer_balance: self.customer_balance.apply(amt)?,", ["c14", "c04", "c02"])
 mut("close-state-swaps-balances", STA, "            merchant_balance: *merchant_balance,\n            customer_balance: *customer_balance,\n        }\n    }", "            merchant_balance: MerchantBalance::try_new(customer_balance.into_inner()).unwrap(),\n            customer_balance: CustomerBalance::try_new(merchant_balance.into_inner()).unwrap(),\n        }\n    }", ["c04", "c03", "c01"])
 
+# ---- generation of keys and parameters (C19)
+LIB = "zkchannels-crypto/src/lib.rs"
+mut("gen-random-non-identity-unchecked", LIB, "            if !bool::from(g.is_identity()) {\n                return g;\n            }", "            if !bool::from(g.is_identity()) || true {\n                return g;\n            }", ["c19"])
+mut("gen-pedersen-gs-plain-random", PED, "        let gs = iter::repeat_with(|| random_non_identity(&mut *rng))", "        let gs = iter::repeat_with(|| G::random(&mut *rng))", ["c19", "c09"])
+mut("gen-secret-scalar-unchecked-after-first", PS, "        let ys = iter::repeat_with(get_nonzero_scalar)\n", "        let ys = iter::repeat_with(|| Scalar::random(&mut *rng))\n", ["c19"])
+# ---- transcripts shared by prover and verifier (one site)
+mut("transcript-publickey-drops-x2", PS, "        builder.consume_bytes(self.x2.to_bytes());\n", "", ["c12", "c06"])
+mut("transcript-signature-drops-sigma2", PS, "        builder.consume(&self.sigma1);\n        builder.consume(&self.sigma2);", "        builder.consume(&self.sigma1);", ["c12"])
+mut("transcript-range-params-drop-key", RNG, "        builder.consume(&self.public_key);\n", "", ["c12", "c13"])
+mut("transcript-pedersen-drops-h", PED, "        builder.consume_bytes(self.h.to_bytes());\n", "", ["c12"])
+
 
 def sh(cmd, cwd=None, timeout=3600):
     p = subprocess.run(cmd, shell=True, cwd=cwd, stdout=subprocess.PIPE, stderr=subprocess.STDOUT, timeout=timeout, env=ENV)
